@@ -27,7 +27,7 @@
 (* <<op, x, R>> or <<op, x, y, R>>, R = the logged value of the node        *)
 (* [v, sz, exp, prec] as in SemF.                                           *)
 (***************************************************************************)
-EXTENDS Naturals, Integers, Sequences, BigZ, Dbl, SemF
+EXTENDS Naturals, Integers, Sequences, BigZ, Dbl, SemF, CxxStream
 
 LOCAL AbsI(i) == IF i < 0 THEN -i ELSE i
 IsLeafF(t) == t[1] \in {"v", "si", "ui", "d"}
@@ -78,6 +78,13 @@ CxxFIOK(i, o) ==
                   o.ret = (CASE op = "cmp" -> c [] op = "<" -> IF c < 0 THEN 1 ELSE 0 [] op = ">" -> IF c > 0 THEN 1 ELSE 0
                              [] op = "==" -> IF c = 0 THEN 1 ELSE 0 [] op = "!=" -> IF c # 0 THEN 1 ELSE 0
                              [] op = "<=" -> IF c <= 0 THEN 1 ELSE 0 [] op = ">=" -> IF c >= 0 THEN 1 ELSE 0)
-FunsCxxF == {"cxx_f", "cxx_fi"}
-PostCxxF(f, i, o) == IF f = "cxx_f" THEN CxxFOK(i, o) ELSE CxxFIOK(i, o)
+(* extraction of an mpf_class (field grammar: CxxStream!FParse): status, position, and the value mpf_set_str gives on the field (SemF!SetStrOK:
+   within the accuracy bound of the destination, exact when it fits); the standard library reads the same field as a double *)
+CxxIstreamFOK(i, o) ==
+   LET p == FParse(i.s, i.skipws)  pr == ParseFlt(p.fld, 10) IN
+   /\ (o.ok = 1) = p.ok /\ o.pos = p.n
+   /\ (p.ok => /\ pr.ok /\ WFVal(o.f) /\ SetStrOK(Dy(o.f), pr, PrecBits(o.f))
+               /\ o.lok = 1 /\ o.lpos = o.pos)
+FunsCxxF == {"cxx_f", "cxx_fi", "cxx_istream_f"}
+PostCxxF(f, i, o) == IF f = "cxx_f" THEN CxxFOK(i, o) ELSE IF f = "cxx_fi" THEN CxxFIOK(i, o) ELSE CxxIstreamFOK(i, o)
 =============================================================================
